@@ -43,6 +43,7 @@ import (
 	"strconv"
 	"strings"
 	"sync"
+	"sync/atomic"
 	"time"
 
 	"github.com/inspirer/textmapper/grammar"
@@ -285,13 +286,32 @@ func pick(strata [4][]*item, budget int) (sel []*item, complete bool) {
 		}
 		left -= taken
 	}
-	// run order: round-robin over the strata, one base group at a time, so that a run cut short
-	// by the time budget has still seen every stratum
+	// run order: round-robin over the strata, one base group at a time, and inside a stratum a
+	// fixed low-discrepancy permutation (i -> i*step mod n, step ~ 0.618 n, coprime with n), so
+	// that a run cut short by the time budget has still seen every stratum, list shape and size
+	perm := func(n int) []int {
+		if n <= 2 {
+			return []int{0, 1}[:n]
+		}
+		step := n * 618 / 1000
+		for gcd(step, n) != 1 {
+			step++
+		}
+		out := make([]int, n)
+		for i := range out {
+			out[i] = i * step % n
+		}
+		return out
+	}
+	var perms [4][]int
+	for s := 0; s < 4; s++ {
+		perms[s] = perm(len(picked[s]))
+	}
 	for i := 0; ; i++ {
 		any := false
 		for s := 0; s < 4; s++ {
 			if i < len(picked[s]) {
-				sel = append(sel, picked[s][i]...)
+				sel = append(sel, picked[s][perms[s][i]]...)
 				any = true
 			}
 		}
@@ -300,6 +320,13 @@ func pick(strata [4][]*item, budget int) (sel []*item, complete bool) {
 		}
 	}
 	return
+}
+
+func gcd(a, b int) int {
+	for b != 0 {
+		a, b = b, a%b
+	}
+	return a
 }
 
 // ---------------------------------------------------------------------------------------------
@@ -876,7 +903,7 @@ func sweepText(L int, exp map[string]int) string {
 }
 
 func run(c *core.Ctx) {
-	L, budget := 5, 200
+	L, budget := 5, 240
 	if !c.Quick() {
 		L, budget = 6, 3000
 	}
@@ -983,6 +1010,10 @@ func (r *runner) batch(items []*item, offset int) {
 			continue
 		}
 		res := out.Results[0]
+		if res.Extra != nil && res.Extra["skipped"] != nil {
+			c.Capped("some twin sweeps were skipped because earlier parses in the same driver process did not return")
+			continue
+		}
 		if res.Hang || res.Panic != "" || res.Extra == nil || res.Extra["sent"] == nil {
 			c.Violate("layerB:twin-run-failed", fmt.Sprintf("the no-recovery twin did not complete its sweep: hang=%v panic=%q", res.Hang, res.Panic), recCase{TwinTM: specs[si].TM})
 			continue
@@ -1102,7 +1133,7 @@ func (r *runner) batch(items []*item, offset int) {
 		}
 		// transparency: the events of every sentence equal the twin's
 		tw, ok := r.twins[p.twin]
-		if !ok {
+		if !ok || res.Extra["truncated"] != nil {
 			continue
 		}
 		ws := make([]string, 0, len(sent))
@@ -1377,9 +1408,10 @@ type shippedRun struct {
 	aborted  bool
 	panicMsg string
 	hang     bool
+	skipped  bool
 }
 
-func runShipped(cfg *shipped.ParserConfig, src string) shippedRun {
+func runShipped(cfg *shipped.ParserConfig, src string, timeout time.Duration) shippedRun {
 	done := make(chan shippedRun, 1)
 	go func() {
 		var r shippedRun
@@ -1414,7 +1446,7 @@ func runShipped(cfg *shipped.ParserConfig, src string) shippedRun {
 	select {
 	case r := <-done:
 		return r
-	case <-time.After(60 * time.Second):
+	case <-time.After(timeout):
 		return shippedRun{hang: true}
 	}
 }
@@ -1461,11 +1493,39 @@ func shippedPart(c *core.Ctx) {
 			}
 		}
 	}
+	// First pass with a 10 s watchdog. A parse that does not come back keeps spinning in this
+	// process, so after 3 of them the remaining inputs are not run; the first one is re-run ALONE
+	// with 60 s and only that run is believed.
 	res := make([]shippedRun, len(jobs))
-	core.ParallelFor(len(jobs), 8, func(i int) { res[i] = runShipped(jobs[i].cfg, jobs[i].text) })
+	var hung int32
+	core.ParallelFor(len(jobs), 8, func(i int) {
+		if atomic.LoadInt32(&hung) >= 3 {
+			res[i].skipped = true
+			return
+		}
+		res[i] = runShipped(jobs[i].cfg, jobs[i].text, 10*time.Second)
+		if res[i].hang {
+			atomic.AddInt32(&hung, 1)
+		}
+	})
+	confirmed := false
 	distinct := map[string]bool{}
 	for i, j := range jobs {
 		r := res[i]
+		if r.skipped {
+			c.Capped("shipped parsers: inputs skipped after parses that did not return")
+			continue
+		}
+		if r.hang {
+			if confirmed {
+				continue
+			}
+			confirmed = true
+			r = runShipped(j.cfg, j.text, 60*time.Second)
+			if !r.hang {
+				c.Add("suspected_hangs_not_reproduced", 1)
+			}
+		}
 		c.Eval(1)
 		c.Add("shipped_runs", 1)
 		switch {
@@ -1494,7 +1554,7 @@ func shippedReplay(raw json.RawMessage) error {
 	if cfg == nil {
 		return fmt.Errorf("unknown config %q", k.Config)
 	}
-	r := runShipped(cfg, k.Text)
+	r := runShipped(cfg, k.Text, 60*time.Second)
 	var msgs []string
 	for _, f := range judgeShipped(cfg, k.Text, r) {
 		msgs = append(msgs, f.key+": "+f.what)
